@@ -491,7 +491,10 @@ func forwardFlow(v ssa.Value, follow func(ssa.Instruction) bool) map[ssa.Instruc
 						break
 					}
 					if al, ok := base.(*ssa.Alloc); ok {
-						walk(al)
+						// only temporaries (varargs / literal backing arrays), not whole objects
+						if _, isArr := derefType(al.Type()).Underlying().(*types.Array); isArr {
+							walk(al)
+						}
 					}
 				}
 			case ssa.Value:
